@@ -161,6 +161,33 @@ def _operand_moveq(A, f, call, ops):
     return out or None
 
 
+def _operand_constants(A, f, e):
+    """Operand members an expression can evaluate to: a constant, a
+    conditional expression of constants, or `<dict of constants>.get(key,
+    <constant>)`; None when it is anything else."""
+    v = A.try_fold(e, f)
+    if isinstance(v, EnumVal) and v.enum == 'Operand':
+        return [v.member]
+    if isinstance(e, ast.IfExp):
+        a, b = _operand_constants(A, f, e.body), _operand_constants(A, f, e.orelse)
+        return a + b if a and b else None
+    if isinstance(e, ast.Call) and isinstance(e.func, ast.Attribute) \
+            and e.func.attr == 'get' and len(e.args) == 2:
+        table = A.try_fold(e.func.value, f)
+        default = _operand_constants(A, f, e.args[1])
+        if isinstance(table, dict) and table and default and all(
+                isinstance(x, EnumVal) and x.enum == 'Operand'
+                for x in table.values()):
+            return sorted(set(x.member for x in table.values())) + default
+    if isinstance(e, ast.Subscript):
+        table = A.try_fold(e.value, f)
+        if isinstance(table, dict) and table and all(
+                isinstance(x, EnumVal) and x.enum == 'Operand'
+                for x in table.values()):
+            return sorted(set(x.member for x in table.values()))
+    return None
+
+
 def _values_of(A, f, node, expr):
     """[(Operand member, allowed op-codes | None, construct)]"""
     base = opcodes_allowed_at(A, f, node)
@@ -170,16 +197,17 @@ def _values_of(A, f, node, expr):
     if isinstance(expr, ast.Name):
         out = []
         for d in reaching_defs(A.cfg(f), node, expr.id):
-            vv = A.try_fold(d.ast.value, f) if isinstance(d.ast, ast.Assign) \
-                else None
-            if not (isinstance(vv, EnumVal) and vv.enum == 'Operand'):
+            vals = _operand_constants(A, f, d.ast.value) \
+                if isinstance(d.ast, ast.Assign) else None
+            if not vals:
                 raise AnalysisError('%s: operand variable defined by %s'
                                     % (f.short, d.text()))
             a2 = opcodes_allowed_at(A, f, d)
             both = base
             if a2 is not None:
                 both = a2 if both is None else both & a2
-            out.append((vv.member, both, d.ast))
+            for member in vals:
+                out.append((member, both, d.ast))
         if out:
             return out
         if expr.id in f.params:
@@ -584,7 +612,7 @@ def r01c(R):
 
 # ---------------------------------------------------------------- R01.d
 @rule('R01.d', ('C01',), 'every operand of an `and` list is followed by the '
-      'action op-code', floor=2,
+      'action op-code', floor=1,
       decides='each light of an and-list receives the command exactly once')
 def r01d(R):
     A = R.A
@@ -670,19 +698,9 @@ def r01e(R):
                    for n in names) and c.args:
                 a = c.args[0]
                 construct = c
-                if isinstance(a, ast.ListComp) and len(a.generators) == 1 \
-                        and not a.generators[0].ifs:
-                    ok = True
-                elif isinstance(a, ast.Call):
-                    # helper(light_set, names) returning an unfiltered
-                    # comprehension over its parameter
-                    for h in A.callees(f, a):
-                        for rn in walk_own(h.node):
-                            if isinstance(rn, ast.Return) and isinstance(rn.value, ast.ListComp) \
-                                    and len(rn.value.generators) == 1 \
-                                    and not rn.value.generators[0].ifs \
-                                    and norm(rn.value.generators[0].iter) in h.params:
-                                ok = True
+                # an unfiltered comprehension, a list filled by an
+                # unconditional append in a loop, or a helper returning one
+                ok = A.whole_map(f, a) is not None
         R.check(f, construct, ok, 'the members handed to the fan-out helper '
                 'are not the complete member list (filter or no list)')
 
